@@ -10,7 +10,12 @@ def kin_hashes(h, other):
     """Payment hashes that are NOT h but share a prefix, a suffix or all but one byte with it (a sender chooses the hash of the
     invoice it embeds: no preimage is needed for a payment that is meant to fail)."""
     h, other = bytes(h), bytes(other)
-    return [h[:8] + other[8:], h[:16] + other[16:], other[:24] + h[24:], other[:16] + h[16:], h[:31] + bytes([h[31] ^ 1]), bytes([h[0] ^ 0x80]) + h[1:],
+    twins = []
+    for i in range(len(h) - 1):
+        # same string when every byte is printed as unpadded hex: 0a bc -> "abc" <- ab 0c
+        if 0 < h[i] < 0x10 and h[i + 1] >= 0x10:
+            twins.append(h[:i] + bytes([(h[i] << 4) | (h[i + 1] >> 4), h[i + 1] & 0x0f]) + h[i + 2:]); break
+    return twins + [h[:8] + other[8:], h[:16] + other[16:], other[:24] + h[24:], other[:16] + h[16:], h[:31] + bytes([h[31] ^ 1]), bytes([h[0] ^ 0x80]) + h[1:],
             h[:4] + other[4:28] + h[28:]]
 
 def freeze_case(r, stage, ending, intruder=False, kin=None):
